@@ -32,7 +32,7 @@ def drain(typed, tr, b, elem, L=3, fb=2, tier="quick", cap=None, ln=None, start=
       role="c02_drain_%s" % ("typed" if typed else "erased"))
 
 
-def splice(typed, kind, tr, b, elem, L=3, fb=1, r=1, tier="quick", cap=None, ln=None, start=None, end=None, f=None, bk_=None, also=()):
+def splice(typed, kind, tr, b, elem, L=3, fb=1, r=1, tier="quick", cap=None, ln=None, start=None, end=None, f=None, bk_=None, also=(), role=None):
     capv = (L + dmax(r)) if cap is None else cap
     ln = "s%d" % L if ln is None else ln
     start = "s%d" % L if start is None else start
@@ -43,7 +43,7 @@ def splice(typed, kind, tr, b, elem, L=3, fb=1, r=1, tier="quick", cap=None, ln=
     call = "c02::splice_h::<%s, %s, %s>(%s, %s, c02::RepKind::%s)" % (TR[tr], bk(b, elem, capv), elem, P2(capv, ln, start, end, max(fb, dmax(f), dmax(bb)), r, f, bb), "true" if typed else "false", kind)
     H(name, call, props_for(b, base=("C02",), also=also), tier=tier, unwind=unwind_for(elem, max(capv, L + dmax(r)) + 1, not typed),
       dims=dict(cap=capv, len=ln, start=start, end=end, front=f, back=bb, replacement=r, rep_kind=kind, elem=elem, backend=b, traits=tr, shape_symbolic=isinstance(ln, str)),
-      role="c02_splice_%s_%s" % ("typed" if typed else "erased", kind.lower()))
+      role=role or "c02_splice_%s_%s" % ("typed" if typed else "erased", kind.lower()))
 
 
 def badrange(bad, op, tr, b, elem, L=3, tier="quick", also=()):
@@ -90,7 +90,12 @@ def define():
             splice(False, kind, "none", b, "B3D", L=3, cap=ln, ln=ln, start=s, end=e, r=r, fb=1, tier="quick" if quick else "rot12")
     splice(True, "Wrapper", "none", "heap", "W8D", L=3, cap=3, ln=3, start=1, end=2, r=2, fb=1)
     # result exactly fills a fixed capacity (symbolic replacement length)
-    splice(False, "Raw", "none", "stack", "B3D", L=3, cap=3, ln=3, start=1, end=2, r="s1", fb=0)
+    splice(False, "Raw", "none", "stack", "B3D", L=3, cap=3, ln=3, start=1, end=2, r="s1", fb=0, role="c02_splice_fit")
+    # the same with everything concrete (cheap): a full fixed-capacity vector whose result is full again must not be refused
+    splice(False, "Raw", "none", "stack", "B3D", L=3, cap=3, ln=3, start=1, end=2, r=1, fb=0, role="c02_splice_fit")
+    splice(True, "Wrapper", "none", "stackn", "B3D", L=2, cap=2, ln=2, start=0, end=1, r=1, fb=1, role="c02_splice_fit")
+    splice(False, "Wrapper", "none", "stack", "W8D", L=1, cap=1, ln=1, start=0, end=1, r=1, fb=0, role="c02_splice_fit", tier="rot2")
+    splice(False, "Raw", "none", "stack", "B3D", L=3, cap=3, ln=3, start=2, end=3, r=1, fb=1, role="c02_splice_fit", tier="rot2")
     for i, bad in enumerate(BADS):
         badrange(bad, ROPS[i], "none", "heap" if i % 2 == 0 else "stack", "B3D")
         for j, op in enumerate(ROPS):
